@@ -90,15 +90,22 @@ Proof.
   repeat match goal with |- context [match ?x with _ => _ end] => destruct x end; lia.
 Qed.
 
+Lemma range_all_3 : forall f : Z -> Z -> Z -> bool,
+  range_all 400 (fun y => range_all 12 (fun m => range_all 31 (fun d => f y m d) 1) 1) 1 = true ->
+  forall y m d, 1 <= y <= 400 -> 1 <= m <= 12 -> 1 <= d <= 31 -> f y m d = true.
+Proof.
+  intros f H y m d Y M D.
+  apply (range_all_spec 31 (fun d => f y m d) 1); [|lia].
+  apply (range_all_spec 12 (fun m => range_all 31 (fun d => f y m d) 1) 1); [|lia].
+  apply (range_all_spec 400 (fun y => range_all 12 (fun m => range_all 31 (fun d => f y m d) 1) 1) 1 H); lia.
+Qed.
+
 Lemma era_date : forall y m d, 1 <= y <= 400 -> 1 <= m <= 12 -> 1 <= d <= days_in_month y m ->
   0 <= days_from_civil y m d < 146097 /\ civil_era (days_from_civil y m d) = (y, m, d).
 Proof.
   intros y m d Y M D.
   pose proof (days_in_month_le y m) as L.
-  pose proof era_dates_checked as H. unfold era_dates_ok in H.
-  pose proof (range_all_spec _ _ _ H y ltac:(lia)) as H1. cbv beta in H1.
-  pose proof (range_all_spec _ _ _ H1 m ltac:(lia)) as H2. cbv beta in H2.
-  pose proof (range_all_spec _ _ _ H2 d ltac:(lia)) as H3. cbv beta in H3.
+  assert (H3 : era_date_ok y m d = true) by (apply (range_all_3 era_date_ok era_dates_checked); lia).
   unfold era_date_ok in H3.
   destruct (civil_era (days_from_civil y m d)) as [[y' m'] d'].
   assert (E : y' = y /\ m' = m /\ d' = d /\ 0 <= days_from_civil y m d < 146097) by lia.
